@@ -63,16 +63,24 @@ type faultSource struct {
 	withData bool // the failing call also returns some bytes
 	injected bool
 	chunk    int // > 0: short reads of at most chunk bytes
+	posFault int // bytes already delivered when the (first) fault was injected
 }
 
 func (s *faultSource) Read(p []byte) (int, error) {
 	s.reads++
 	if s.failAt > 0 && (s.reads == s.failAt || (s.sticky && s.reads > s.failAt)) {
+		first := !s.injected
+		if first {
+			s.posFault = s.pos
+		}
 		s.injected = true
 		if s.withData && s.pos < len(s.data) && len(p) > 0 {
 			n := min(len(p), len(s.data)-s.pos, 1000)
 			copy(p, s.data[s.pos:s.pos+n])
 			s.pos += n
+			if first {
+				s.posFault = s.pos // what the source had handed over when the failing call returned
+			}
 			return n, errInjected
 		}
 		return 0, errInjected
@@ -305,10 +313,14 @@ func runSourceCase(c *fiCase) (o fiObs) {
 		} else if !eof {
 			o.kind = "source-fault-swallowed"
 			o.detail = fmt.Sprintf("source failed at Read call %d (%s, jobs %d): no Read call returned an error or io.EOF (got %d of %d bytes)", c.K, c.Mode, c.Jobs, len(out), len(data))
-		} else {
-			// the failing call was a read-ahead beyond the end marker: every byte of the stream had been delivered
-			// and decoded correctly, the stream really is complete - not "a source error turned into a clean end-of-stream"
+		} else if src.posFault >= len(stream) {
+			// the source had handed over its last byte when the failing call returned (a read-ahead beyond the end marker, or
+			// the last bytes delivered together with the error): nothing of the stream was lost or still to come, the
+			// stream really is complete - not "a source error turned into a clean end-of-stream"
 			o.masked = true
+		} else {
+			o.kind = "source-fault-swallowed"
+			o.detail = fmt.Sprintf("source failed at Read call %d (%s, jobs %d) after delivering %d of its %d bytes: the error never surfaced, every Read returned nil / io.EOF (the data happens to be complete because the source went on delivering)", c.K, c.Mode, c.Jobs, src.posFault, len(stream))
 		}
 	}
 	return
